@@ -168,6 +168,21 @@ def chk_builds(inp):
             M = rayleigh(t).make_covariance_matrix()
             if M.shape != refr.shape or not numpy.array_equal(M.view("int32"), refr.view("int32")):
                 return bad("guide stars at 15 / 12 km, a layer at 17 km, %d workers: matrix is not bit-identical to the single-process one" % t, int((M.view("int32") != refr.view("int32")).sum()) if M.shape == refr.shape else list(M.shape), 0)
+    if not (inp and inp.get("no_schedules")):
+        for dt in ("float32", "float16", "int64"):
+            def typed(threads, dt=dt):
+                rng = numpy.random.default_rng(41)
+                masks = [aotools.circle(2.5, 5), (rng.random((5, 5)) > 0.3).astype(float)]
+                r0s = numpy.array([1, 2, 3] if dt == "int64" else [0.2, 0.4, 0.3]).astype(dt)
+                L0s = numpy.array([25, 15, 30]).astype(dt)
+                return aotools.CovarianceMatrix(2, masks, 4.0, [0.8, 0.8], [0, 90000.], [[10, 0], [-5, 8]], [5e-7, 6e-7], 3, numpy.array([0., 4000., 11000.]).astype("float32" if dt != "int64" else dt), r0s, L0s, threads)
+            reft = typed(1).make_covariance_matrix().copy()
+            cmt = typed(2)
+            for t in (2, 1, 3):
+                cmt.threads = t
+                M = cmt.make_covariance_matrix()
+                if M.shape != reft.shape or not numpy.array_equal(M.view("int32"), reft.view("int32")):
+                    return bad("turbulence profile given as %s arrays, %d workers: matrix is not bit-identical to the single-process one" % (dt, t), int((M.view("int32") != reft.view("int32")).sum()) if M.shape == reft.shape else list(M.shape), 0)
     for kind in kinds:
         ref = system(kind, 1).make_covariance_matrix().copy()
         for seq in ([1, 1], [2, 2], [1, 2, 1], [3, 1, 1, 2], [2, 1, 2], [1, 2, 1, 3]):
